@@ -188,6 +188,85 @@ where
     }
 }
 
+
+pub open spec fn skip_nl(b: Seq<u8>) -> Seq<u8>
+    decreases b.len()
+{
+    if b.len() > 0 && spec_is_newline(b[0]) { skip_nl(b.subrange(1, b.len() as int)) } else { b }
+}
+proof fn lemma_skip_nl(b: Seq<u8>, k: int)
+    requires 0 <= k <= b.len(), forall|j: int| 0 <= j < k ==> spec_is_newline(#[trigger] b[j]), k < b.len() ==> !spec_is_newline(b[k]),
+    ensures skip_nl(b) == b.subrange(k, b.len() as int),
+    decreases b.len()
+{
+    if b.len() > 0 && spec_is_newline(b[0]) {
+        let t = b.subrange(1, b.len() as int);
+        assert forall|j: int| 0 <= j < k - 1 implies spec_is_newline(#[trigger] t[j]) by { assert(t[j] == b[j + 1]); }
+        if k < b.len() { assert(t[k - 1] == b[k]); }
+        lemma_skip_nl(t, k - 1);
+        assert(t.subrange(k - 1, t.len() as int) =~= b.subrange(k, b.len() as int));
+    } else {
+        assert(k == 0);
+        assert(b.subrange(0, b.len() as int) =~= b);
+    }
+}
+
+fn consume_leading_newlines(bytes: &[u8]) -> (ret: &[u8])
+    ensures ret@ == skip_nl(bytes@),
+{
+    match shim_slice_position(bytes, |c: &u8| -> (r: bool) ensures r == !spec_is_newline(*c) { !is_newline(c) }) {
+        Some(pos) => { proof { lemma_skip_nl(bytes@, pos as int); } &bytes[pos..] },
+        None => { proof { lemma_skip_nl(bytes@, bytes@.len() as int); assert(bytes@.subrange(bytes@.len() as int, bytes@.len() as int) =~= Seq::<u8>::empty()); } b"" },
+    }
+}
+
+pub open spec fn lit_arrow() -> Seq<u8> { seq![32u8, 45u8, 62u8, 32u8] }
+pub open spec fn lit_colon() -> Seq<u8> { seq![58u8] }
+
+/// Parses a single Proguard Class from a Proguard File.
+fn parse_proguard_class(bytes: &[u8]) -> (ret: Result<(ProguardRecord, &[u8]), ParseError>)
+    ensures match ret {
+        Ok((ProguardRecord::Class { original, obfuscated }, rest)) => {
+            let o = str_bytes(original); let b = str_bytes(obfuscated);
+            &&& exists|tail: Seq<u8>| bytes@ == o + lit_arrow() + b + lit_colon() + tail && rest@ == skip_nl(tail)
+            &&& forall|j: int| 0 <= j < o.len() ==> o[j] != 32u8 && !spec_is_newline(#[trigger] o[j])
+            &&& forall|j: int| 0 <= j < b.len() ==> b[j] != 58u8 && !spec_is_newline(#[trigger] b[j])
+        },
+        Ok((_, _)) => false,
+        Err(_) => true,
+    }
+{
+    // class line:
+    // `originalclassname -> obfuscatedclassname:`
+    let (original, bytes1) = parse_until_no_newline(bytes, |c: &u8| -> (r: bool) ensures r == (*c == 32u8) { *c == b' ' })?;
+
+    let bytes2 = parse_prefix(bytes1, b" -> ")?;
+
+    let (obfuscated, bytes3) = parse_until_no_newline(bytes2, |c: &u8| -> (r: bool) ensures r == (*c == 58u8) { *c == b':' })?;
+
+    let bytes4 = parse_prefix(bytes3, b":")?;
+
+    let record = ProguardRecord::Class {
+        original,
+        obfuscated,
+    };
+
+    proof {
+        let o = str_bytes(original); let b = str_bytes(obfuscated);
+        let tail = bytes4@;
+        assert(b" -> "@ =~= lit_arrow());
+        assert(b":"@ =~= lit_colon());
+        assert(bytes@ =~= o + bytes1@);
+        assert(bytes1@ =~= lit_arrow() + bytes2@);
+        assert(bytes2@ =~= b + bytes3@);
+        assert(bytes3@ =~= lit_colon() + bytes4@);
+        assert(bytes@ =~= o + lit_arrow() + b + lit_colon() + tail);
+        assert forall|j: int| 0 <= j < o.len() implies o[j] != 32u8 && !spec_is_newline(#[trigger] o[j]) by { assert(o[j] == bytes@[j]); }
+        assert forall|j: int| 0 <= j < b.len() implies b[j] != 58u8 && !spec_is_newline(#[trigger] b[j]) by { assert(b[j] == bytes2@[j]); }
+    }
+    Ok((record, consume_leading_newlines(bytes4)))
+}
+
 fn is_newline(byte: &u8) -> (r: bool) ensures r == spec_is_newline(*byte) {
     *byte == b'\r' || *byte == b'\n'
 }
